@@ -101,6 +101,16 @@ func (r *worldRunner) apply(kind string, x int, body []byte, idx int) {
 	case "recv":
 		term = hx.App("WoRecv", sideBool(x))
 		r.recvs[x] = append(r.recvs[x], startRecv(r.ctx, r.ref[x], nil))
+	case "recvc":
+		term = hx.App("WoRecvC", sideBool(x))
+		cctx, cancel := context.WithCancel(r.ctx)
+		cancel()
+		r.recvs[x] = append(r.recvs[x], startRecv(cctx, r.ref[x], nil))
+	case "sendc":
+		term = hx.App("WoSendC", sideBool(x), hx.Bytes(body))
+		cctx, cancel := context.WithCancel(r.ctx)
+		cancel()
+		r.sends[x] = append(r.sends[x], startSend(cctx, r.ref[x], body, nil))
 	case "cancelrecv":
 		term = hx.App("WoCancelRecv", sideBool(x), hx.Nat(idx))
 		if idx < len(r.recvs[x]) {
@@ -196,8 +206,16 @@ func runWorldScripts(c *hx.Ctx, n int, wFail, wCancel int, fixed [][][3]any, che
 					}
 				case v < 16:
 					if nR == 0 {
-						r.apply("recv", x, nil, 0)
-						c.Class("world:recv")
+						if c.Rng.Intn(3) == 0 {
+							r.apply("recvc", x, nil, 0)
+							c.Class("world:recv-cancelled-ctx")
+						} else {
+							r.apply("recv", x, nil, 0)
+							c.Class("world:recv")
+						}
+					} else if nS == 0 && c.Rng.Intn(3) == 0 {
+						r.apply("sendc", x, []byte{byte(97 + c.Rng.Intn(4))}, 0)
+						c.Class("world:send-cancelled-ctx")
 					}
 				case v < 18:
 					if r.cur[x] == nil {
